@@ -5,6 +5,11 @@ from checks import common, c17_gen
 from pyvc.frontend import Frontend
 
 
+# pickle-based encodings: the dependency's round trip is ASSUMED (codec_pair), the repository's composition of it is proved
+CODEC_TARGETS = ["harness:serde-message-roundtrip", "harness:report-roundtrip", "harness:report-rejects-non-report",
+                 "harness:framing-reliable-send", "harness:framing-send-data", "harness:framing-local-callback"]
+
+
 def generated_sources(fe):
     return [("checks/c17_gen.py:generated", c17_gen.harness_source(fe))]
 
@@ -14,13 +19,15 @@ def run(tier, seed):
     fe = Frontend()
     gen = generated_sources(fe)
     classes = [ci.name for ci in c17_gen.message_classes(fe)]
-    targets = [f"harness:roundtrip-{n}" for n in classes]
+    targets = [f"harness:roundtrip-{n}" for n in classes] + CODEC_TARGETS
     reports = common.pyvc_run(targets, gen_sources=gen, timeout_ms=10000 if tier == "quick" else 60000)
     out.add_pyvc(reports)
     out.extra["message_classes_found_in_source"] = classes
     out.assumptions += [
         "int.to_bytes/from_bytes, str.encode/decode('ascii') and slice clamping as axiomatised in pyvc/bytesalg.py",
-        "pickle / cloudpickle / orjson / pydantic round-trip plain data (executor messages, controller reports, gateway JSON): assumed, exercised only by the bounded stand-in",
+        "pickle.loads(pickle.dumps(v)) == v (codec_pair, assumed): with it, serde.ser_message/des_message, report.serialize/deserialize and the framing "
+        "send / send_data / callback -> Listener._recv_one are PROVED to return the original message for every message",
+        "cloudpickle / orjson / pydantic round-trip plain data (gateway JSON, JobInstance): assumed, exercised only by the bounded stand-in",
     ]
     from checks import c17_bounded
     c17_bounded.run(out, tier, seed)
